@@ -115,7 +115,8 @@ Theorem C12_resources_never_overcommitted_partial :
     forall r, (cmd_used r (db (run s0 evs)) <= availz (avail s0) r)%N.
 Proof.
   exact (fun s0 evs HI Hq =>
-    resources_never_overcommitted_partial_proof recycle_keeps_inflight define_rejects_inflight s0 evs HI (or_intror Hq)).
+    resources_never_overcommitted_partial_proof recycle_keeps_inflight define_rejects_inflight s0 evs HI
+      (or_intror (quiet_calm _ _ evs s0 Hq))).
 Qed.
 
 (* and the SUM computed by the dispatch guard is then the true usage *)
@@ -125,7 +126,8 @@ Theorem C12_db_sum_within_availability_partial :
               (used r (db (run s0 evs)) <= availz (avail s0) r)%N.
 Proof.
   exact (fun s0 evs HI Hq =>
-    db_sum_within_availability_partial recycle_keeps_inflight define_rejects_inflight s0 evs HI (or_intror Hq)).
+    db_sum_within_availability_partial recycle_keeps_inflight define_rejects_inflight s0 evs HI
+      (or_intror (quiet_calm _ _ evs s0 Hq))).
 Qed.
 
 (* with either repair the SUM of the guard is the true usage in EVERY history *)
@@ -137,6 +139,30 @@ Theorem C12_db_sum_within_availability :
 Proof.
   exact (fun keep rej H s0 evs HI => db_sum_within_availability_partial keep rej s0 evs HI (or_introl H)).
 Qed.
+
+(* CALM histories (weaker than quiet, whatever the shape): a step whose job is in flight MAY be declared
+   again, provided the declaration is a full recycle (same outputs) and either only its hash check is under
+   way, or its command executes outside any hold block and the declaration asks for the same resources:
+   the ordinary "a deferred plan runs again while its children still execute". Everything quiet is calm. *)
+Theorem C12_resources_never_overcommitted_calm :
+  forall (s0 : sys) (evs : list event), Inv s0 -> calm s0 evs ->
+    forall r, (cmd_used r (db (run s0 evs)) <= availz (avail s0) r)%N.
+Proof.
+  exact (fun s0 evs HI Hq =>
+    resources_never_overcommitted_partial_proof recycle_keeps_inflight define_rejects_inflight s0 evs HI (or_intror Hq)).
+Qed.
+
+Theorem C12_db_sum_within_availability_calm :
+  forall (s0 : sys) (evs : list event), Inv s0 -> calm s0 evs ->
+    forall r, used r (db (run s0 evs)) = cmd_used r (db (run s0 evs)) /\
+              (used r (db (run s0 evs)) <= availz (avail s0) r)%N.
+Proof.
+  exact (fun s0 evs HI Hq =>
+    db_sum_within_availability_partial recycle_keeps_inflight define_rejects_inflight s0 evs HI (or_intror Hq)).
+Qed.
+
+Theorem C12_quiet_is_calm : forall s0 evs, quiet s0 evs -> calm s0 evs.
+Proof. exact (fun s0 evs H => quiet_calm recycle_keeps_inflight define_rejects_inflight evs s0 H). Qed.
 
 (* Unconditional (all histories, recycling included): an executing command never holds a unit of
    a resource that is not defined, and the dispatch decision rejects such a step. *)
@@ -215,6 +241,18 @@ Theorem C12_held_step_does_not_run_partial :
       forall a ax m, anc (db s) i a -> nth_error (db s) a = Some ax -> In m (cmds ax) -> depth m = 0%N.
 Proof.
   exact (fun s0 evs HI Hq =>
+    held_step_does_not_run_partial_proof recycle_keeps_inflight define_rejects_inflight s0 evs HI
+      (or_intror (quiet_calm _ _ evs s0 Hq))).
+Qed.
+
+(* ... and for calm histories *)
+Theorem C12_held_step_does_not_run_calm :
+  forall (s0 : sys) (evs : list event), Inv s0 -> calm s0 evs ->
+    let s := run s0 evs in
+    forall i x, nth_error (db s) i = Some x -> has_hash x = false -> step s (EDispatch i) <> None ->
+      forall a ax m, anc (db s) i a -> nth_error (db s) a = Some ax -> In m (cmds ax) -> depth m = 0%N.
+Proof.
+  exact (fun s0 evs HI Hq =>
     held_step_does_not_run_partial_proof recycle_keeps_inflight define_rejects_inflight s0 evs HI (or_intror Hq)).
 Qed.
 
@@ -283,6 +321,20 @@ Proof. vm_compute. repeat split; try reflexivity. discriminate. Qed.
 
 Example C12_example_quiet : quiet sys0 (ex_hist ++ [EComplete 1 0 OSucc; EDispatch 2]).
 Proof. vm_compute. repeat split; try discriminate. Qed.
+
+(* calm is strictly weaker than quiet: the benign re-declaration of an executing step *)
+Example C12_example_calm :
+  calm_gen false false sys0 history_benign_redeclare /\ ~ quiet_gen false false sys0 history_benign_redeclare /\
+  step_gen false false (run_gen false false sys0 history_benign_redeclare) (EDispatch 3) = None /\
+  cmd_used 1 (db (run_gen false false sys0 history_benign_redeclare)) = 1%N.
+Proof.
+  split; [|split; [|split]].
+  - vm_compute. repeat split; try discriminate; try (left; split; [reflexivity|discriminate]).
+    all: try (right; repeat split; right; split; reflexivity).
+  - vm_compute. intuition discriminate.
+  - vm_compute. reflexivity.
+  - vm_compute. reflexivity.
+Qed.
 
 (* hold: a child declared under an open hold is refused until the release *)
 Definition ex_hold : list event :=
